@@ -689,7 +689,7 @@ func balloonDriver(args []string) error {
 		enc := symhash.NewEncoder(symhash.Global, func(def symhash.Term) { dw.Emit(def) })
 		budgetQ := 450
 		if thorough {
-			budgetQ = 5000
+			budgetQ = 2500
 		}
 		nq := 0
 		runs := 0
